@@ -91,9 +91,10 @@ def lengths_of(kernel, tier):
             ls = [x for x in ls if x > 0] if thorough else [1, 9, 31, 32, 33, 63, 64, 65, 128, 131, 192]      # the SIMD binary kernels are only entered with non-empty operands (dispatcher returns early)
         return ls
     if v is None:            # fall-back kernels and the no_std public entry points
-        return list(range(0, 18)) if thorough else [0, 1, 2, 3, 9]
+        return list(range(0, 12)) if thorough else [0, 1, 2, 3, 9]
     if thorough:
-        return sorted(set(list(range(0, v + 2)) + [2 * v - 1, 2 * v, 2 * v + 1]))
+        # (the full range 0..=V+1 for every table kernel did not finish within 3.5 h on this host)
+        return sorted(set(list(range(0, 10)) + [v - 1, v, v + 1, 2 * v - 1, 2 * v, 2 * v + 1]))
     return [0, 1, v, v + 1, 2 * v + 1]
 
 
@@ -159,7 +160,7 @@ def describe(rep, tier):
          "octets::BinaryOctetVec::{new,len,padding_bits,select_mask,to_octet_vec}"]
     rep.bounds = {"lengths": "one harness per kernel and length (concrete length, exact heap allocations); add/binary kernels: %s; table kernels "
                              "(mul, fma) of vector width V: %s; fall-back kernels and no_std entry points: %s (see coverage.lengths_per_kernel)" % (
-        ("0..=136", "0..=V+1, 2V-1, 2V, 2V+1", "0..=17") if tier == "thorough" else ("0,1,7,8,9,15,16,17,31,32,33,63,64,65,129 (binary: 1,9,31,32,33,63,64,65,128,131,192)", "0,1,V,V+1,2V+1", "0,1,2,3,9")),
+        ("0..=136, 191..193", "0..9, V-1, V, V+1, 2V-1, 2V, 2V+1", "0..=11") if tier == "thorough" else ("0,1,7,8,9,15,16,17,31,32,33,63,64,65,129 (binary: 1,9,31,32,33,63,64,65,128,131,192)", "0,1,V,V+1,2V+1", "0,1,2,3,9")),
         "contents": "all byte values symbolic",
         "scalar": "kernels without a table (add, binary fma): all 256 values at every length; table kernels (mul, fma): every length at the fixed "
                   "scalars listed in the obligation names, plus 16-value scalar slices at one length per kernel (a full vector and a tail byte); "
